@@ -15,6 +15,7 @@ import SwimVerif.Proofs.SupplyLane
 import SwimVerif.Proofs.SupplyCompose
 import SwimVerif.Proofs.ReadFeed
 import SwimVerif.Proofs.CommandLane
+import SwimVerif.Proofs.AgentCommands
 
 set_option linter.unusedVariables false
 namespace SwimVerif.WT
@@ -306,5 +307,77 @@ example :
     cmdsOf (deliveredTo 0 s.delivered) = [(1, 3), (2, 4), (1, 0), (1, 5)] := by decide
 example : invoked (CL.run rigHandler {} [.command .cmd (.ok 3), .command .cmd (.ok 4), .command .cmd .bad,
     .command .cmd (.ok 5)]).trace = [3, 4, 5, 6] := by decide
+
+end SwimVerif.CmdPath
+
+/-! ## Part 6 — agent-sent commands inside the agent task (`command_buffer`, `CommandWriter`, `CommandSendComplete`) -/
+namespace SwimVerif.CL
+
+/-- **Every command a handler sends is on its way exactly once, in issue order**: what the runtime has read from the
+ad hoc channel, then what is in the channel, then the batch of the write in flight, then `command_buffer` — is exactly
+the sequence of commands the received lane commands made the handlers send. For every handler and every interleaving
+of lane requests, lane write completions, ad hoc write completions and runtime reads. -/
+theorem C14_agent_commands_exactly_once_in_order (h : Handler) (evs : List Ev) :
+    (run h {} evs).ad.taken ++ (run h {} evs).ad.chan ++ (run h {} evs).ad.inflight ++ (run h {} evs).ad.buf
+      = (validCmds (cmdBodies evs)).flatMap h.issuedBy := by
+  have hi := adinv_run h evs {} (adinv_init h)
+  rw [hi.fifo, hi.issued, run_received h evs {}]; rfl
+
+/-- **Buffered commands are never left behind**: while `command_buffer` is not empty the writer is away, i.e. a write
+is in `cmd_send_fut` whose `CommandSendComplete` starts the next write (this is what the loop must do itself — no
+handler need run again). -/
+theorem C14_agent_commands_never_stranded (h : Handler) (evs : List Ev)
+    (hb : (run h {} evs).ad.buf ≠ []) : (run h {} evs).ad.home = false :=
+  (adinv_run h evs {} (adinv_init h)).owed hb
+
+/-- **At quiescence (no ad hoc write in flight) every command issued by a handler has been written to the ad hoc
+channel exactly once, in issue order — hence in issue order per target.** -/
+theorem C14_agent_commands_all_forwarded (h : Handler) (evs : List Ev) (hq : (run h {} evs).ad.home = true) :
+    (run h {} evs).ad.taken ++ (run h {} evs).ad.chan = (validCmds (cmdBodies evs)).flatMap h.issuedBy ∧
+    ∀ t, adFor t ((run h {} evs).ad.taken ++ (run h {} evs).ad.chan)
+          = adFor t ((validCmds (cmdBodies evs)).flatMap h.issuedBy) := by
+  have hi := adinv_run h evs {} (adinv_init h)
+  have hb : (run h {} evs).ad.buf = [] := by
+    cases hx : (run h {} evs).ad.buf with
+    | nil => rfl
+    | cons a r =>
+      have := hi.owed (by simp [hx])
+      rw [hq] at this; exact absurd this (by simp)
+  have hall := C14_agent_commands_exactly_once_in_order h evs
+  rw [hi.idle hq, hb] at hall
+  simp only [List.append_nil] at hall
+  exact ⟨hall, fun t => by rw [hall]⟩
+
+/-! Non-vacuity (the rig's lifecycle): 17 sends 4 commands, 22 a burst of 60; the first write is still in flight when
+the burst arrives (it waits in `command_buffer`), one completion restarts the writer, the second brings it home. -/
+example : ((run rigHandler {} [.command .cmd (.ok 17), .command .cmd (.ok 22)]).ad.inflight.length,
+    (run rigHandler {} [.command .cmd (.ok 17), .command .cmd (.ok 22)]).ad.buf.length) = (4, 60) := by decide
+example : ((run rigHandler {} [.command .cmd (.ok 17), .command .cmd (.ok 22), .cmdSendDone, .cmdSendDone]).ad.home,
+    (run rigHandler {} [.command .cmd (.ok 17), .command .cmd (.ok 22), .cmdSendDone, .cmdSendDone]).ad.chan.length)
+    = (true, 64) := by decide
+
+end SwimVerif.CL
+
+namespace SwimVerif.CmdPath
+open SwimVerif.CL
+
+/-- an ad hoc command as the runtime's `CommandOutput` sees it: `(target, command with its overwrite flag)` -/
+def toRec (a : AdHoc) : Nat × Cmd.Cmd := (a.target, ⟨a.value, a.ow⟩)
+
+/-- **Agent-sent commands end to end**: take any run of the agent task that is quiescent (no ad hoc write in flight)
+and whose ad hoc channel the runtime has drained, and any run of the runtime's `CommandOutput` that was given exactly
+the records read from that channel. Then for every target, what has reached the target's channel, is in flight or is
+pending there is a SUPERSESSION of the commands the handlers issued for it: only an overwritable command may be
+missing, and only because a later command to the same target replaced it. -/
+theorem C14_agent_commands_reach_target_as_supersession (h : Handler) (evs : List Ev)
+    (hq : (CL.run h {} evs).ad.home = true) (hc : (CL.run h {} evs).ad.chan = [])
+    (ops : List Cmd.Op) (hfeed : (Cmd.run {} ops).appended = (CL.run h {} evs).ad.taken.map toRec) (t : Nat) :
+    Cmd.Sup (Cmd.cmdsFor t (((validCmds (cmdBodies evs)).flatMap h.issuedBy).map toRec)) ((Cmd.run {} ops).flow t) := by
+  have hall := (C14_agent_commands_all_forwarded h evs hq).1
+  rw [hc, List.append_nil] at hall
+  have hs := Cmd.C14_commands_flow_is_supersession ops t
+  unfold Cmd.St.appendedFor at hs
+  rw [hfeed, hall] at hs
+  exact hs
 
 end SwimVerif.CmdPath
